@@ -69,6 +69,12 @@ class Report:
                           'failed': [o['name'] for o in f['obligations'] if o['verdict'] != 'unsat']})
         for s in self.structural:
             obligations += 1; discharged += 1 if s['verdict'] == 'holds' else 0
+        bd = [f for f in self.functions if f.get('bounded_in_D')]
+        if bd:
+            self.add_bounded('unrolled symbolic execution (bounded in D, symbolic in all coefficient values)',
+                             sum(f['bounded_in_D']['obligations'] for f in bd), sum(len(f['bounded_in_D']['D']) for f in bd),
+                             'for each listed D the real function is executed symbolically with all loops unrolled and every obligation (postcondition = spec interpreter run on solver terms, frames, callee preconditions, index bounds) is discharged by z3: complete for that D and all values; distinct = (function, cfg, D)',
+                             [{'function': f['function'], 'cfg': f['cfg'], **f['bounded_in_D']} for f in bd[:3]], 'D in %s' % sorted(set(d for f in bd for d in f['bounded_in_D']['D'])))
         ev = sum(b['evaluations'] for b in self.bounded); dn = sum(b['distinct_nontrivial'] for b in self.bounded)
         level = self.claimed
         if level == 'proof' and (obligations == 0 or discharged < obligations): level = 'other'
